@@ -105,6 +105,7 @@ type Engine struct {
 	Concrete    map[string]int64 // when non-nil every nondet is fixed to this value (default 0)
 	trackExempt map[ObjID]bool
 	files       map[string]*SliceV
+	fmtFail     bool
 	ndSeen      map[string]bool
 	sharedObjs  map[ObjID]bool // package-level variables and everything package initialisers created
 	MapOrder    func(n int) []int
@@ -127,7 +128,7 @@ func (e *Engine) unsupported(msg string) {
 
 func (e *Engine) where() string {
 	var b strings.Builder
-	for i := len(e.stack) - 1; i >= 0 && i >= len(e.stack)-6; i-- {
+	for i := len(e.stack) - 1; i >= 0 && i >= len(e.stack)-e.whereDepth(); i-- {
 		if b.Len() > 0 {
 			b.WriteString(" <- ")
 		}
@@ -634,3 +635,10 @@ func (e *Engine) zeroResults(fn *ssa.Function) []Value {
 }
 
 var _ = types.Identical
+
+func (e *Engine) whereDepth() int {
+	if os.Getenv("GV_STACK") != "" {
+		return 40
+	}
+	return 6
+}
